@@ -106,6 +106,26 @@ let () =
            let e = encode_bounds !sentinel lo up it in
            let (l', u') = decode_bounds !sentinel e it in
            Printf.printf "A %s %s | %s %s\n" id (if e = [] then "NONE" else String.concat " ; " (List.map show_bstmt e)) (show_q l') (show_q u')
+         | "basis", [ cs; free; rs ] ->
+           (* columns are named 1..n, rows n+1..n+m; cs/rs status strings over 0123, free a 01 string.
+              answer: <write lines | NONE> | <read cstat> <read rstat> (read applied to the written lines) *)
+           let st_of c = (match c with '0' -> Lo | '1' -> Ba | '2' -> Up | '3' -> Fr | _ -> failwith "status") in
+           let ch_of s = (match s with Lo -> '0' | Ba -> '1' | Up -> '2' | Fr -> '3') in
+           let n = String.length cs and m = (if rs = "-" then 0 else String.length rs) in
+           let cols = List.init n (fun j -> ((n_of_int (j + 1), st_of cs.[j]), free.[j] = '1')) in
+           let rows = List.init m (fun i -> (n_of_int (n + i + 1), st_of rs.[i])) in
+           let zi x = BZ.to_int (z_of_coqz (match x with N0 -> Z0 | Npos p -> Zpos p)) in
+           (match write_basis cols rows with
+            | None -> Printf.printf "A %s NONE\n" id
+            | Some ls ->
+              let show l = (match l with
+                | XU (c, r) -> Printf.sprintf "XU:%d:%d" (zi c) (zi r) | XL (c, r) -> Printf.sprintf "XL:%d:%d" (zi c) (zi r)
+                | UL c -> Printf.sprintf "UL:%d" (zi c) | LL c -> Printf.sprintf "LL:%d" (zi c)) in
+              let back = (match read_basis cols (List.map fst rows) ls with
+                | None -> "FAIL"
+                | Some (c, r) -> (if c = [] then "-" else String.concat "" (List.map (fun s -> String.make 1 (ch_of s)) c)) ^ " " ^
+                                 (if r = [] then "-" else String.concat "" (List.map (fun s -> String.make 1 (ch_of s)) r))) in
+              Printf.printf "A %s %s | %s\n" id (if ls = [] then "EMPTY" else String.concat " " (List.map show ls)) back)
          | _ -> Printf.printf "A %s UNKNOWN-QUERY\n" id)
       with Failure m -> Printf.printf "A %s PARSE-ERROR %s\n" id m);
       flush stdout; loop ()
